@@ -142,6 +142,79 @@ theorem no_deadlock (ths : List Thread) (hok : ∀ th ∈ ths, th.ok = true)
         have hf : holds (ths.filter (· ≠ th)) t = false := by simpa using hheld
         simp only [enabled, hr, hf, Bool.not_false]
 
+/-! ## observed lock traces are runs of the machine -/
+
+theorem runWork_is_run (fuel : Nat) (s : St) (i : Nat) :
+    ∃ evs, noPanic evs = true ∧ s.run evs = runWork fuel s i := by
+  induction fuel generalizing s with
+  | zero => exact ⟨[], rfl, rfl⟩
+  | succ n ih =>
+    unfold runWork
+    split
+    · split
+      · obtain ⟨evs, h1, h2⟩ := ih (stepAt s i)
+        exact ⟨.step i :: evs, by simpa [noPanic] using h1, by simpa [St.run] using h2⟩
+      · exact ⟨[], rfl, rfl⟩
+    · exact ⟨[], rfl, rfl⟩
+
+theorem run_append (s : St) (a b : List Ev) : s.run (a ++ b) = (s.run a).run b := by
+  induction a generalizing s with
+  | nil => rfl
+  | cons e r ih => cases e <;> simp only [List.cons_append, St.run] <;> exact ih _
+
+theorem noPanic_append (a b : List Ev) : noPanic (a ++ b) = (noPanic a && noPanic b) := by
+  induction a with
+  | nil => simp [noPanic]
+  | cons e r ih => cases e <;> simp [noPanic, ih]
+
+theorem replayOne_is_run (fuel : Nat) (s s1 : St) (o : Obs) (h : replayOne fuel s o = some s1) :
+    ∃ evs, noPanic evs = true ∧ s.run evs = s1 := by
+  unfold replayOne at h
+  obtain ⟨evs, h1, h2⟩ := runWork_is_run fuel s o.thread
+  simp only at h
+  split at h
+  · split at h
+    · split at h
+      · simp only [Option.some.injEq] at h
+        refine ⟨evs ++ [.step o.thread], ?_, ?_⟩
+        · rw [noPanic_append, h1]; rfl
+        · rw [run_append, h2]; simpa [St.run] using h
+      · cases h
+    · cases h
+  · cases h
+
+/-- **trace inclusion**: a lock trace that `replay` accepts is a run of the machine without panics — so what is proved of
+every run (tables never written, no poisoning without a panic) holds of the observed execution, and the replay itself checks that
+every acquisition was granted by the machine (`enabled`: nobody else held the table) -/
+theorem replay_is_run (fuel : Nat) (s s1 : St) (tr : List Obs) (h : replay fuel s tr = some s1) :
+    ∃ evs, noPanic evs = true ∧ s.run evs = s1 := by
+  induction tr generalizing s with
+  | nil => simp only [replay, Option.some.injEq] at h; exact ⟨[], rfl, h⟩
+  | cons o r ih =>
+    simp only [replay] at h
+    cases h0 : replayOne fuel s o with
+    | none => simp [h0] at h
+    | some s0 =>
+      simp only [h0, Option.bind_some] at h
+      obtain ⟨e1, a1, b1⟩ := replayOne_is_run fuel s s0 o h0
+      obtain ⟨e2, a2, b2⟩ := ih s0 h
+      exact ⟨e1 ++ e2, by rw [noPanic_append, a1, a2]; rfl, by rw [run_append, b1, b2]⟩
+
+/-- an accepted trace leaves the tables as they were and poisons nothing -/
+theorem replay_preserves (fuel : Nat) (s s1 : St) (tr : List Obs) (h : replay fuel s tr = some s1) :
+    s1.content = s.content ∧ s1.poisoned = s.poisoned := by
+  obtain ⟨evs, h1, h2⟩ := replay_is_run fuel s s1 tr h
+  rw [← h2]; exact ⟨content_const s evs, no_poison_without_panic s evs h1⟩
+
+/-- the trace of one computation on one thread is accepted and finishes the program; an acquisition of the July table while another
+thread holds it is not -/
+example : ((replay 16 (indicatorThreads 1 1)
+    [⟨0, .lock .monthly⟩, ⟨0, .unlock .monthly⟩, ⟨0, .lock .meta_⟩, ⟨0, .unlock .meta_⟩, ⟨0, .lock .july⟩, ⟨0, .unlock .july⟩]).map St.finished)
+    = some true := by decide
+example : (replay 16 (indicatorThreads 2 1)
+    [⟨0, .lock .monthly⟩, ⟨0, .unlock .monthly⟩, ⟨0, .lock .meta_⟩, ⟨0, .unlock .meta_⟩, ⟨0, .lock .july⟩,
+     ⟨1, .lock .monthly⟩, ⟨1, .unlock .monthly⟩, ⟨1, .lock .meta_⟩, ⟨1, .unlock .meta_⟩, ⟨1, .lock .july⟩]).isNone = true := by decide
+
 /-! ## ids depend only on the element -/
 
 /-- `id_local`: ids are computed element by element (`uuid_from_obj` of the element's own Debug text),
